@@ -142,7 +142,15 @@ def check(col: Collector, tier: str):
                     cvar = [n.targets[0].id for n in walk_no_nested(fn_) if isinstance(n, ast.Assign) and n.value is calls[0] and isinstance(n.targets[0], ast.Name)]
                     a_ = kwarg(calls[0], "args")
                     elts = [src(resolve_name(fn_, e.func.value))[:200] if isinstance(e, ast.Call) and call_name(e) == "as_ast" else src(e) for e in (a_.elts if isinstance(a_, ast.List) else [])]
-                    shape_ok = len(elts) == 3 and ".begin()" in elts[0] and ".end()" in elts[1] and "initial_value=self.get_rep(args[0])" in elts[2].replace(" ", "")
+                    # the third argument is the begin variable, i.e. the variable initialised with the translated lower bound (whether that
+                    # translation is written inline or bound to a local first)
+                    third = None
+                    if isinstance(a_, ast.List) and len(a_.elts) == 3 and isinstance(a_.elts[2], ast.Call) and call_name(a_.elts[2]) == "as_ast":
+                        third = resolve_name(fn_, a_.elts[2].func.value)
+                    iv_ = kwarg(third, "initial_value") if isinstance(third, ast.Call) and call_name(third) == "cpp_variable" else None
+                    from sa.props._tr import deep as _deep
+                    begin_ok = iv_ is not None and src(_deep(fn_, iv_)).replace(" ", "") == "self.get_rep(args[0])"
+                    shape_ok = len(elts) == 3 and ".begin()" in elts[0] and ".end()" in elts[1] and begin_ok
                     emitted = [c for c in walk_no_nested(fn_) if isinstance(c, ast.Call) and call_name(c) == "add_statement" and cvar
                                and f"self.get_rep({cvar[0]})" in src(c)]
                     mk = [c for c in walk_no_nested(fn_) if isinstance(c, ast.Call) and call_name(c) == "make_sequence_from_collection"]
@@ -405,6 +413,26 @@ def _is_translated(fn, e, tainted_params=()):
     return False
 
 
+def _translated_before_its_block(fn, var_call, iv):
+    """The one arrangement in which a translated initial value is sound: the translation is an unconditional statement of the function
+    that comes BEFORE the cursor opens a fresh block (`self._gc.add_statement(statement.block())`, unconditional as well), and the variable
+    lives in that fresh block (its scope is the cursor's current scope, taken after the push).  Whatever code the value needs was then
+    emitted ahead of the block, whose declarations follow it."""
+    top = list(fn.body)
+    e = strip_cast(iv)
+    if not isinstance(e, ast.Name):
+        return False
+    ds = [st for st in top if isinstance(st, ast.Assign) and len(st.targets) == 1 and isinstance(st.targets[0], ast.Name) and st.targets[0].id == e.id]
+    if len(ds) != 1 or len(defs_of(fn, e.id)) != 1:
+        return False
+    pushes = [st for st in top if isinstance(st, ast.Expr) and isinstance(st.value, ast.Call) and call_name(st.value) == "add_statement"
+              and src(st.value.func.value) == "self._gc" and st.value.args and isinstance(st.value.args[0], ast.Call)
+              and src(st.value.args[0].func) in ("statement.block", "block") and not st.value.args[0].args]
+    scope = arg(var_call, 1, "scope")
+    return (len(pushes) == 1 and ordk_end(ds[0]) < ordk(pushes[0]) < ordk(var_call)
+            and scope is not None and src(scope) == "self._gc.current_scope()")
+
+
 def check_hoisted_init(col, repo: Repo):
     """block.emit writes `type name (init);` for all variables before any statement of the block. An initial value built
     from a translated query expression refers to statements emitted later in the same block."""
@@ -427,7 +455,7 @@ def check_hoisted_init(col, repo: Repo):
                 if iv is None:
                     continue
                 tp = tainted.get(f.name, set())
-                bad = _is_translated(f.node, iv, tp)
+                bad = _is_translated(f.node, iv, tp) and not _translated_before_its_block(f.node, c, iv)
                 nm = c.args[0] if c.args else kwarg(c, "cpp_expression")
                 label = src(nm.args[0]).strip("'\"") if isinstance(nm, ast.Call) and call_name(nm) == "unique_name" and nm.args else src(nm)[:30]
                 col.add("C01.R5", f.short, f"initialiser-of:{label}", not bad,
